@@ -690,8 +690,8 @@ class t2listing(object):
         """Parses line of a table and returns starting indices of each column"""
         numpos = [start]
         if columns[0] == 'I': # e.g. ECO2M element table
-          spos = line.find(' ', start + 1)
-          if spos >= 0: numpos.append(spos)
+          from re import match
+          numpos.append(start + match(' *[0-9]*', line[start:]).end())
         from re import finditer,escape
         # find all decimal points:
         pts = [match.start() for match in finditer(escape('.'), line)]
